@@ -15,9 +15,12 @@
     networkx VF2 (induced sub-graph isomorphisms of one k-subset) is modelled by the verified
     enumerator [Mono.monos] with [induced := true]; only the SET of its results matters because
     the code sorts the final list (the correspondence compares the ordered final list).
-    Not modelled: prune_automorphisms (depends on VF2's enumeration order), mcs_mol, component mode. *)
+      MCSMatcher._componentwise_mcs / find_rc_mapping(side='its', component=True) (round 3):
+        nx.connected_components in node order, stable sort by size (descending), pairwise search on
+        the induced copies, first mapping of each sorted local list, dict.update      [componentwise, find_rc_component]
+    Not modelled: prune_automorphisms and mcs_mol (both keep the FIRST result in VF2's enumeration order). *)
 From Coq Require Import List NArith ZArith Bool Arith.
-From SK Require Import lib.Tok lib.LGraph lib.Mono.
+From SK Require Import lib.Tok lib.LGraph lib.Mono lib.Reach.
 Import ListNotations.
 
 (** node attributes: value of the element key (used only by wildcard pruning) and the values of
@@ -204,11 +207,67 @@ Definition get_mappings (d : direction) (r : result) : list mapping :=
 Definition find_common_subgraph_mtg (defs : list N) (g1 g2 : graph) (mcs : bool) : list mapping * nat * nat :=
   search_subgraphs (node_match defs) edge_match_mtg g1 g2 mcs.
 
+(* ---------- component-wise mode: find_rc_mapping(..., side='its', component=True) ---------- *)
+(** one connected component: saturation closure of lib/Reach.v from one node (fuel |V|+1 always suffices) *)
+Definition comp_closure (g : graph) (u : N) : list N :=
+  match saturate (nbrs g) (S (n_nodes g)) [u] with Some c => c | None => [] end.
+
+(** nx.connected_components(G): nodes in insertion order, one component per node not yet seen *)
+Fixpoint comps_go (g : graph) (todo seen : list N) : list (list N) :=
+  match todo with
+  | [] => []
+  | u :: rest => if LGraph.mem u seen then comps_go g rest seen
+                 else let c := comp_closure g u in c :: comps_go g rest (c ++ seen)
+  end.
+Definition components (g : graph) : list (list N) := comps_go g (node_ids g) [].
+
+(** list.sort(key=number_of_nodes, reverse=True): stable, larger first *)
+Fixpoint insert_desc (c : list N) (l : list (list N)) : list (list N) :=
+  match l with
+  | [] => [c]
+  | d :: r => if (length d <? length c)%nat then c :: l else d :: insert_desc c r
+  end.
+Definition sort_comps (l : list (list N)) : list (list N) := fold_left (fun acc c => insert_desc c acc) l [].
+
+Section Component.
+Variable nm : option nattr -> option nattr -> bool.
+Variable em : eattr -> eattr -> bool.
+
+(** one pair of components: orientation, search, first mapping of the sorted list, reported G1 -> G2 *)
+Definition comp_pair (g1 g2 : graph) (mcs : bool) (c1 c2 : list N) : mapping * nat :=
+  let '(pattern, host, p1) := prepare_orientation (induced_sub g1 c1) (induced_sub g2 c2) in
+  let '(maps, _, tried) := search_subgraphs nm em pattern host mcs in
+  match maps with
+  | [] => ([], tried)
+  | best :: _ => (if p1 then best else invert_mapping best, tried)
+  end.
+
+Fixpoint comp_fold (g1 g2 : graph) (mcs : bool) (ps : list (list N * list N)) (acc : mapping) (tried : nat) : mapping * nat :=
+  match ps with
+  | [] => (acc, tried)
+  | (c1, c2) :: r => let '(m, t) := comp_pair g1 g2 mcs c1 c2 in comp_fold g1 g2 mcs r (acc ++ m) (tried + t)
+  end.
+
+Definition componentwise (g1 g2 : graph) (mcs : bool) : mapping * nat :=
+  comp_fold g1 g2 mcs (combine (sort_comps (components g1)) (sort_comps (components g2))) [] 0.
+End Component.
+
+Definition find_rc_component (defs : list N) (prune : bool) (wc : N) (g1 g2 : graph) (mcs : bool) : result :=
+  let '(combined, tried) := componentwise (node_match defs) edge_match (prune_graph prune wc g1) (prune_graph prune wc g2) mcs in
+  {| r_maps := [combined]; r_last := length combined; r_tried := tried; r_pattern_is_g1 := true |}.
+
 (* ---------- observables ---------- *)
 Definition tmap (m : mapping) : tok := tset (tpair tN tN) m.
 
 Definition run_matcher (defs : list N) (prune : bool) (wc : N) (g1 g2 : graph) (mcs : bool) : tok :=
   let r := find_common_subgraph defs prune wc g1 g2 mcs in
+  L [tbool (r_pattern_is_g1 r); tnat (r_last r); tnat (r_tried r);
+     tlist tmap (get_mappings PatternToHost r);
+     tlist tmap (get_mappings G1toG2 r);
+     tlist tmap (get_mappings G2toG1 r)].
+
+Definition run_component (defs : list N) (prune : bool) (wc : N) (g1 g2 : graph) (mcs : bool) : tok :=
+  let r := find_rc_component defs prune wc g1 g2 mcs in
   L [tbool (r_pattern_is_g1 r); tnat (r_last r); tnat (r_tried r);
      tlist tmap (get_mappings PatternToHost r);
      tlist tmap (get_mappings G1toG2 r);
